@@ -136,7 +136,7 @@ fn c08_k1_seq_release() {
     kani::cover!(matches!(s, NormalKey { keycode, .. } if keycode == k), "physical key with the same code survives");
 }
 
-// @harness name=c08_k1_seq_custom prop=C08 tier=quick timeout=1800
+// @harness name=c08_k1_seq_custom prop=C08,C01 tier=quick timeout=1800
 // @encodes Layout::process_sequence_custom, CustomEvent::update
 // @inst Layout<3, 2, u8>
 // @bounds states [plain key, macro custom item in symbolic phase (pending / active)]; the custom event already produced this tick is symbolic (none / press / release of another custom action)
